@@ -26,7 +26,7 @@ type c09Case struct {
 }
 
 const c09Rule = "case = well-formed IPFIX or NetFlow v9 message M (generator of C03/C06, templates pre-announced and/or in-message) + 0..3 undecodable sets U inserted at drawn positions: " +
-	"unknown template id with any body (random, zeros, or bytes that look like valid sets), reserved id 4..255 with any body, data for an announced template that names an element missing from the information model (also among its scope fields), data for a template that the message itself announces only later; " +
+	"unknown template id with any body (random, zeros, or bytes that look like valid sets), reserved id 4..255 with any body, data for an announced template that names an element missing from the information model (also among its scope fields; also when that definition supersedes an earlier, fully known definition of the same id), data for a template that the message itself announces only later; " +
 	"oracle (a) insertion: records(M+U) == records(M) and a non-empty unknown-template set is reported as an error; " +
 	"(b) truncation, enumerated for EVERY offset 0..len of M and of M+U against an identically prepared cache: records of the prefix (nil message = none) form a prefix of the full decode's records; " +
 	"non-trivial = the message carries >= 1 data record (so some offsets cut inside a record) ; label 'U-between-data-sets' marks the sandwich shape; distinct by hash"
@@ -163,15 +163,25 @@ func genC09(t *rapid.T, env *wire.GenEnv) c09Case {
 				fs = append(fs, miss)
 				tp.Fields = append(fs, tp.Fields[pos:]...)
 			}
-			var m wire.Msg
-			env.GenHeader(t, &m)
-			kind := "tpl"
-			if tp.Options {
-				kind = "opt"
+			announce := func(tp wire.Template) {
+				var m wire.Msg
+				env.GenHeader(t, &m)
+				kind := "tpl"
+				if tp.Options {
+					kind = "opt"
+				}
+				m.Sets = []wire.Set{{Kind: kind, Tpls: []wire.Template{tp}}}
+				c.ExtraPre = append(c.ExtraPre, m)
 			}
-			m.Sets = []wire.Set{{Kind: kind, Tpls: []wire.Template{tp}}}
-			c.ExtraPre = append(c.ExtraPre, m)
 			tpc := tp
+			if rapid.Bool().Draw(t, "missredefines") {
+				// history: the id was first announced with known elements only and is then REDEFINED with the
+				// template naming the missing element; the data set (well-formed under the definition in force) is
+				// undecodable and must not be decoded with the superseded definition
+				in.Kind = "missing-element-redefined"
+				announce(env.GenTemplate(t, tp.ID))
+			}
+			announce(tp)
 			ds := env.GenDataSet(t, &tpc, 3)
 			in.Set = ds
 		}
@@ -198,10 +208,18 @@ func (c *c09Case) withInsertions() wire.Msg {
 }
 
 func (c *c09Case) prepare() (*flowCache, []byte, error) {
-	sc := c.Sc
-	sc.Pre = append(append([]wire.Msg{}, c.Sc.Pre...), c.ExtraPre...)
-	cache, addr, err := prepareScenario(&sc)
-	return cache, addr, err
+	cache, addr, err := prepareScenario(&c.Sc)
+	if err != nil {
+		return cache, addr, err
+	}
+	// announcements of templates naming an element missing from the model: whether the decoder reports them,
+	// caches them or drops them is not this property's matter (the inserted set is undecodable either way)
+	for i := range c.ExtraPre {
+		if _, perr := cache.decodeFlow(addr, c.ExtraPre[i].Bytes()); perr != nil {
+			return cache, addr, fmt.Errorf("announcement of a template naming an unknown element: %v", perr)
+		}
+	}
+	return cache, addr, nil
 }
 
 func recordsPrefix(p, full []wire.DecodedRecord) string {
